@@ -1,4 +1,5 @@
 import RedisVerif.Model.NMap
+import RedisVerif.Model.HashBytes
 
 /-
   M8 (ring half) — model of consistent-hash placement and selective gossip routing.
@@ -118,6 +119,19 @@ def gossipTargets (r : HashRing) (keyPos sender : Nat) : List Nat :=
 
 /-- `HashRing::is_responsible` -/
 def isResponsible (r : HashRing) (keyPos node : Nat) : Bool := (getReplicas r keyPos).contains node
+
+/-! ## the positions, as the code computes them
+
+  `DefaultHasher` is one byte-stream hash `sip` (`Model/SipHash.lean`: SipHash-1-3, zero key, in
+  the driver).  The theorems of `Props/C19.lean` hold for an arbitrary `hashV`; instantiated with
+  `vnodePos sip` the run-time hypothesis `PosInjective` becomes a property of `sip` alone. -/
+
+/-- `HashRing::hash_virtual_node(node, i)`: `node.0.hash(h); virtual_index.hash(h)` — the `u64`
+    replica id and the `u32` index, little-endian -/
+def vnodePos (sip : List Nat → Nat) (node i : Nat) : Nat := sip (HB.le64 node ++ HB.le32 i)
+
+/-- `HashRing::hash_key(key)`: `key.hash(h)` — the key's bytes and `0xff` -/
+def keyPosOf (sip : List Nat → Nat) (kb : Nat → List Nat) (k : Nat) : Nat := sip (HB.strBytes kb k)
 
 /-! ## GossipRouter -/
 
